@@ -141,4 +141,36 @@ def addSubtotals (keysOf : List SV → List (List (Option SV))) (g : Groups) : S
       if acc.any (·.1 == sk) then acc.map fun x => if x.1 == sk then (x.1, (x.2.zip e.2).map fun (s, t) => s.merge t) else x
       else acc ++ [(sk, e.2)]) acc) []
 
+/-! ### pivot -/
+
+/-- a pivoted group holds `pvs.length * ncols` accumulators, one block of `ncols` per pivot value; a row
+steps only the block of its own pivot value (`if pivot_value in self.pivot_values`), none if it has no block -/
+def stepCells (pvs : List SV) (pv : SV) (sts : List St) (vals : List SV) : List St :=
+  (sts.zip (pvs.flatMap fun p => vals.map fun v => (p, v))).map fun (s, (p, v)) => if p == pv then s.step v else s
+
+def addRowPivot (ncols : Nat) (pvs : List SV) (g : Groups) (key : List SV) (pv : SV) (vals : List SV) : Groups :=
+  updGroup g key (fun sts => stepCells pvs pv sts vals) (List.replicate (pvs.length * ncols) St.init)
+
+/-- rows are (key tuple, pivot value, aggregated values) -/
+def aggregatePivot (ncols : Nat) (pvs : List SV) (parts : List (List (List SV × SV × List SV))) : Groups :=
+  (parts.map fun p => p.foldl (fun g r => addRowPivot ncols pvs g r.1 r.2.1 r.2.2) []).foldl mergeGroups []
+
+def aggregatePivotSpec (ncols : Nat) (pvs : List SV) (rows : List (List SV × SV × List SV)) : Groups :=
+  rows.foldl (fun g r => addRowPivot ncols pvs g r.1 r.2.1 r.2.2) []
+
+/-- `sorted(collect_set(pivot_col))` over string values: the distinct non-null values in ascending order -/
+def insertSorted (v : SV) : List SV → List SV
+  | [] => [v]
+  | x :: xs => if v == x then x :: xs else if svLe v x then v :: x :: xs else x :: insertSorted v xs
+
+def pivotValues (pvs : List SV) : List SV := (pvs.filter (· != .null)).foldl (fun acc v => insertSorted v acc) []
+
+/-! ### what each aggregate reads (exact part; square roots are taken by the caller) -/
+
+def St.avg (s : St) : Option Rat := if s.n = 0 then none else some (s.sum / s.n)
+def St.varPop (s : St) : Option Rat := if s.n = 0 then none else some (s.m2 / s.n)
+def St.varSamp (s : St) : Option Rat := if s.n ≤ 1 then none else some (s.m2 / ((s.n : Rat) - 1))
+/-- collect_set / countDistinct / sumDistinct read the distinct collected values -/
+def St.distinct (s : St) : List SV := s.items.eraseDups
+
 end PysparklingVerif.Agg
